@@ -116,6 +116,30 @@ def translate():
     out.extend(body3)
     step('one3d/Read.__readheader.padded_size',
          lambda: orr.assign_expr('one3d.readheader', 'padded_size', 'o3r_padded_size_of', ['record_size'])[0])
+    # ---- height_pressure/Read.py seek arithmetic; temperature/Read.py position generators (start and increment)
+    hr = mod('height_pressure/Read.py')
+    cx4 = P.Ctx(funcs=dict(cx.funcs), selffields=[], selfprefix='hpr')
+    body4 = []
+    for f in ['layerrecords', 'timerecords', 'recordposition']:
+        def g4(f=f):
+            body4.append(hr.function('height_pressure.' + f, 'hpr_' + f, cx4) + '\n')
+            return ''
+        step('height_pressure/Read.height_pressure.__' + f, g4)
+    out.append(P.self_record(cx4))
+    out.extend(body4)
+    tr = mod('temperature/Read.py')
+    step('temperature/Read.__readheader.area_padded_size',
+         lambda: tr.assign_expr('temperature.readheader', 'area_padded_size', 'tr_area_padded_size_of', ['area_size'])[0])
+    step('temperature/Read.__readheader.padded_size',
+         lambda: tr.assign_expr('temperature.readheader', 'padded_size', 'tr_padded_size_of', ['record_size'])[0])
+    step('temperature/Read.__surfpos.pos',
+         lambda: tr.assign_expr('temperature.surfpos', 'pos', 'tr_surfpos0', ['data_start_byte'])[0])
+    step('temperature/Read.__surfpos.inc',
+         lambda: tr.assign_expr('temperature.surfpos', 'inc', 'tr_surf_inc', ['area_padded_size', 'padded_size', 'nlayers'])[0])
+    step('temperature/Read.__airpos.pos',
+         lambda: tr.assign_expr('temperature.airpos', 'pos', 'tr_airpos0', ['area_padded_size', 'data_start_byte'])[0])
+    step('temperature/Read.__airpos.inc',
+         lambda: tr.assign_expr('temperature.airpos', 'inc', 'tr_air_inc', ['area_padded_size', 'padded_size', 'nlayers'])[0])
     text = ''.join(out)
     P.write_if_changed(os.path.join(C.COQ, 'Gen', 'Camx.v'), text)
     return res
